@@ -982,6 +982,7 @@ func main() {
 	mofn := c.partC(r.Thorough())
 	ctorsOK := c.partD()
 	nTypes, typeCases, exempt := c.partE()
+	wd := c.partF(scr)
 	os.RemoveAll(scr)
 
 	if c.validRej.Len() > 0 && r.NumViolations() == 0 {
@@ -1035,6 +1036,7 @@ func main() {
 		"rule": "A: address sets of size 1..3 over {standard k0, standard k1, deposit k0, multisig 1of2, multisig 2of3, Schnorr} x {plain, +second UTXO of one address, last address named by a Script attribute} x every sequence of length 0..|set|+1 over {valid program, badly signed twin of each needed address, one valid foreign program} through checkTransactionSignature; " +
 			"B: every single-byte substitution (16-value alphabet) of code, parameter and signed bytes of each kind's valid spend, plus signatures over every proper prefix (and one-byte extension) of the signed bytes and every prefix presented with the full signature, through RunPrograms; " +
 			"C: 1<=m<=n<=4 x every assignment of keys to script slots (incl. one key in several slots) x signer sequences of length 0..n+1 over {each script key (j-th use = j-th distinct signature), foreign key, garbage} (quick: n=4 as multisets in both orders) through VerifyMultisigSignatures and RunPrograms; " +
+			"F: Schnorr WithdrawFromSideChain (payload v2) at a height past CrossChainUTXORestrictionHeight on a light node: arbiter sets {4 (MemberCount 4), 4 (MemberCount 6), 12 (MemberCount 12)} x every signer-index list of length 0..6 over 3 indexes + quorum-length {all distinct, alternating pair, alternating triple, first index repeated at the end} lists, each with the really producible aggregated-key program and signature, through SpecialContextCheck then checkTransactionSignature; accepted => distinct indexes >= quorum; " +
 			"E: every transaction type of GetTransaction x payload version 0..3, spending a foreign standard address with {no program, foreign program, tampered signature, correct program} through checkTransactionSignature; the observed set of (type, version) classes that verify no program must equal the pinned table; " +
 			"m==n multisig scripts (2of2, 3of3) and 1of2 under prefixes 0x12/0x21/0x1f and the cross-chain twin get the full mutation family plus zero-signature / dropped-signature / altered-data spends; part C also runs every m-of-n signer sequence under the standard and deposit prefixes (n<=3, and n=4 with distinct keys); constructors include multisig deposit and standard-by-code contracts for 1<=m<=n<=4; the set of classes accepted outside the owned region is pinned; " +
 			"D: 7 prefixes x 15 code classes x 5 unsigned/foreign parameters x hash match/mismatch; all address constructors for n<=4. non-trivial = accepted spends, each judged by the independent verifier",
@@ -1044,6 +1046,10 @@ func main() {
 		"mutations":                  muts,
 		"mofn_signer_sequences":      mofn,
 		"constructors_in_layout":     ctorsOK,
+		"withdraw_v2_signer_lists":   wd.lists,
+		"withdraw_v2_accepted":       wd.accepted,
+		"withdraw_v2_rejected_by_special_check": wd.rejectedSpecial,
+		"withdraw_v2_rejected_by_signature_check": wd.rejectedSignature,
 		"transaction_types":          nTypes,
 		"type_version_cases":         typeCases,
 		"signature_exempt_classes_observed": exempt,
